@@ -3,7 +3,10 @@
     shardedSearcher.List aggregation).  Per-shard search is the reference meaning [eval] of the query on the
     shard's documents; content atoms are arbitrary per-document predicates; shards are arbitrary lists of
     repositories (simple, compound, a repository split over several shards, unknown repository lists). *)
-From ZV Require Import Lib.Base Model.Shards Proofs.Shards Proofs.ShardsBranches.
+From ZV Require Import Lib.Base Model.Shards Proofs.Shards Proofs.ShardsBranches Generated.C18Rewrite.
+Require Coq.Strings.String.
+Import Coq.Strings.String.StringSyntax.
+Delimit Scope string_scope with string.
 
 (** Pre-selecting shards by the first repository-set child and rewriting that child (to Const true, or to an
     exact Branch filter) never adds or removes a file: the sharded answer is, shard by shard and in shard
@@ -73,6 +76,25 @@ Theorem C18_typerepo_equiv : forall shards q r d,
   eval (tr_ref (depth q) shards) q r d = eval no_tr (expand shards q) r d.
 Proof. intros. apply typerepo_equiv. apply le_n. Qed.
 Print Assumptions C18_typerepo_equiv.
+
+(** The rewrite table of doSelectRepoSet, regenerated from search/shards.go on every run (Generated/C18Rewrite.v), is
+    the one the model implements: [child_pred] selects shards by RepoSet / RepoIDs / Repo / Meta (one [QRepoPred]) and
+    BranchesRepos; [rewrite_child] turns the former into Const true and a SINGLE-entry BranchesRepos into an EXACT
+    Branch atom (fields Pattern and Exact: true) under the HEAD guard. *)
+Theorem C18_rewrite_table_matches_model :
+  c18_selected_kinds = ["BranchesRepos"; "Meta"; "Repo"; "RepoIDs"; "RepoSet"]%string /\
+  c18_const_true_kinds = ["Meta"; "Repo"; "RepoIDs"; "RepoSet"]%string /\
+  c18_branch_rewrite_fields = ["Exact"; "Pattern"]%string /\
+  c18_branch_rewrite_exact = true /\ c18_single_entry_guard = true /\ c18_head_guard = true /\
+  (forall p f, rewrite_child true f (QRepoPred p) = Some (QConst true)) /\
+  (forall b ids f, N.eqb b HEAD = false -> rewrite_child true f (QBranchesRepos [(b, ids)]) = Some (QBranchExact b)) /\
+  (forall x y l f, rewrite_child true f (QBranchesRepos (x :: y :: l)) = None).
+Proof.
+  repeat split; try reflexivity.
+  - intros b ids f Hb. cbn. rewrite Hb. reflexivity.
+  - intros [b ids] y l f. reflexivity.
+Qed.
+Print Assumptions C18_rewrite_table_matches_model.
 
 (** The code before the repair (/repo 823fc3f): a single-entry BranchesRepos on "HEAD" was always rewritten to
     Branch{HEAD, exact}; on a repository with branches [main, HEAD] that selects other files. *)
